@@ -347,6 +347,7 @@ class Result:
             path = os.path.join(rdir, f"{self.prop}-{self.seed}-{self.tier}.json")
             json.dump({"property": self.prop, "kind": "failing-input", "sig": v["sig"], "what": v["what"],
                        "witness": v["witness"], "other_violations": len(self.violations) - 1,
+                       "violation_signatures": {sg: sum(1 for x in self.violations if x["sig"] == sg) for sg in sorted({x["sig"] for x in self.violations})},
                        "broken_ties": self.broken[:5]}, open(path, "w"), indent=1, ensure_ascii=False)
             lines.append(f"VIOLATION property={self.prop} replay={path}")
             exit_code = 1
